@@ -42,6 +42,11 @@ class Kernel:
         self.idle = None           # callable(timeout) invoked when a poller would block
         self.spurious_p = 0.0      # probability that an idle connected socket is reported readable (spurious wake-up fault)
         self.poll_blocked_forever = 0
+        # optional fault (default off): send() on a healthy connected socket is refused, now and then, with a TRANSIENT error -
+        # nothing was taken, the socket stays usable and writable, the caller is expected to try again (send(2): ENOBUFS
+        # "insufficient resources were available"; EAGAIN on a socket the poller reported writable)
+        self.send_refusal_p = 0.0
+        self.send_refusal_errnos = (errno.ENOBUFS, errno.EAGAIN)
 
     # ---------------------------------------------------------------- sockets
     def socket(self, family=_real_socket.AF_INET, type=_real_socket.SOCK_STREAM, proto=0, fileno=None):
@@ -334,6 +339,12 @@ class FakeSocket:
         if room <= 0:
             k.sim.probe("send_eagain")
             raise BlockingIOError(errno.EAGAIN, "Resource temporarily unavailable")
+        if k.send_refusal_p and len(data) and k.sim.draw_bool(k.send_refusal_p, "send-refused"):
+            e = k.send_refusal_errnos[k.sim.draw_int(0, len(k.send_refusal_errnos) - 1, "send-refusal-errno")]
+            k.sim.fault("send_refused_transiently/" + errno.errorcode[e])
+            if e == errno.EAGAIN:
+                raise BlockingIOError(e, os.strerror(e))
+            raise OSError(e, os.strerror(e))
         n = min(len(data), room)
         if n < len(data):
             k.sim.fault("partial_send")
